@@ -1,20 +1,24 @@
 #!/bin/bash
 # try_seeded.sh <patch.diff> <C13|C14|C15>... : applies a seeded change to a scratch
-# copy of /repo (never to /repo itself), runs the named quick checks against the
-# copy, and removes the copy. Prints one line per check: CAUGHT / MISSED / INFRA.
+# git worktree of /repo's HEAD (never to /repo itself), runs the named quick checks
+# against it, and removes it. The patch is applied with a three-way fallback
+# (git apply -3), so that a change written against an earlier commit of /repo
+# still applies after later fix: commits touched neighbouring lines.
+# Prints one line per check: CAUGHT / MISSED / INFRA.
 # Development aid (sensitivity gate), not a registered command.
 set -u
 HERE="$(cd "$(dirname "$0")/.." && pwd)"
 P="$1"; shift
 W="$(mktemp -d /var/tmp/seedtry.XXXXXX)"
-trap 'rm -rf "$W"' EXIT
-rsync -a --exclude .git /repo/ "$W/repo/" || exit 2
-( cd "$W/repo" && git init -q . 2>/dev/null; git apply --whitespace=nowarn "$P" ) || { echo "INFRA patch does not apply: $P"; exit 2; }
-rm -rf "$W/repo/.git"
+trap 'git -C /repo worktree remove --force "$W/repo" >/dev/null 2>&1; rm -rf "$W"; git -C /repo worktree prune >/dev/null 2>&1' EXIT
+git -C /repo worktree add -q --detach "$W/repo" HEAD >/dev/null 2>&1 || { echo "INFRA cannot create worktree"; exit 2; }
+( cd "$W/repo" && { git apply --whitespace=nowarn "$P" 2>/dev/null || git apply -3 --whitespace=nowarn "$P" >/dev/null 2>&1; } ) || { echo "INFRA patch does not apply: $P"; exit 2; }
+if [ "${TRY_APPLY_ONLY:-}" = 1 ]; then echo "APPLIES $P"; exit 0; fi
 for prop in "$@"; do
   out="$W/out.$prop"
   VERIF_REPO="$W/repo" VERIF_BUDGET="${VERIF_BUDGET:-30}" VERIF_EVIDENCE_DIR="$W/evidence" VERIF_REPLAY_DIR="$W/replays" "$HERE/check" "$prop" quick >"$out" 2>&1
   rc=$?
+  [ -n "${TRY_KEEP_OUT:-}" ] && cp "$out" "$TRY_KEEP_OUT.$prop"
   case $rc in
     1) echo "CAUGHT $prop $(grep -c '^VIOLATION' "$out") violation class(es): $(grep -m3 '^  ' "$out" | cut -c1-260 | tr '\n' ';')";;
     0) echo "MISSED $prop $(tail -1 "$out" | cut -c1-200)";;
